@@ -89,7 +89,7 @@ fn m_verify(mode: u8, key: &[u8], m: &[u8], sig: &[u8], ctx: Option<&[u8]>, chos
         let c = ctx.unwrap_or(b"");
         if c.len() > 255 {
             // with_context refuses; the plain prehashed verifiers are out of their documented domain
-            return (key_ok, sig_ok, Some(false));
+            return (key_ok, sig_ok, if mode == 8 { Some(false) } else { None });
         }
         if mode == 11 {
             // the context digest is the simulator's stub: the challenge is what it was told to output
@@ -303,6 +303,13 @@ impl ModelW {
                 o.f("sig_ok", sig_ok);
                 if let Some(v) = verdict {
                     o.f("accept", v);
+                } else if key_ok && sig_ok {
+                    // context longer than 255 bytes handed to a plain prehashed verifier: outside the documented domain,
+                    // so the verdict is not decided - but in a release build the call must still return
+                    if cfg!(debug_assertions) {
+                        return Out::Skip;
+                    }
+                    o.any("accept");
                 }
             }
             Step::BQ { q, m, sig, key } => {
@@ -839,7 +846,8 @@ impl RealW {
                 if let (Some(vk), Some(sg)) = (vk, sg) {
                     let c = ctx.as_ref().map(|c| c.0.as_slice());
                     set_dispatch(*d);
-                    let too_long = c.map(|c| c.len() > 255).unwrap_or(false);
+                    // in release builds the plain prehashed verifiers are also called with over-long contexts (no panic allowed)
+                    let too_long = c.map(|c| c.len() > 255).unwrap_or(false) && (cfg!(debug_assertions) || *mode == 8);
                     let acc: bool = match mode {
                         0 => vk.verify(&m.0, &sg).is_ok(),
                         1 => Verifier::verify(&vk, &m.0, &sg).is_ok(),
